@@ -54,5 +54,6 @@ def stages(tier, rng, only=None):
                             _nt))
     out.append(ac.stage("cycles", PID, lambda: _cases(
         [ac.cyclic_dataset(rng, 3, 5, incomplete=k % 3 != 0) for k in range(150 if tier == "quick" else 1500)]
-        + [ac.two_cycles(rng) for _ in range(6 if tier == "quick" else 40)], sch, 1), _nt))
+        + [ac.two_cycles(rng) for _ in range(6 if tier == "quick" else 40)]
+        + [ac.cycle_plus(rng) for _ in range(40 if tier == "quick" else 400)], sch, 1), _nt))
     return [s for s in out if not only or s.name == only]
